@@ -401,4 +401,22 @@ func init() {
 		)
 		props["C06"] = p
 	}
+
+	// ---- C14 ----
+	{
+		p := &Prop{ID: "C14", Outside: []string{
+			"interfaces decoded from action.yml / reusable workflow files (`required && default == nil` via UnmarshalYAML + Node.Decode = reflection): not encodable; interfaces are given in memory here",
+			"interface and call-site names longer than one letter in the small-interface harnesses; more than 3 declared / 3 supplied inputs",
+			"output names other than lower-case-letter strings (plus the characters of declared outputs at their positions)",
+			"the 154 outdated specs (they are rejected wholesale, not interface-checked)",
+		}}
+		p.Quick = []HRun{
+			{Entry: "HarnessC14Action", Bound: "checkAction on every interface of <= 3 inputs (symbolic letters, symbolic required flags) x every call site of <= 3 supplied keys", Require: []string{"checked"}},
+			{Entry: "HarnessC14Popular", Args: []int64{0, 1000}, Bound: "all 120 bundled action specs x a fully symbolic with: key of every length up to the longest declared name + 1 (all byte values)", Require: []string{"reported", "accepted", "skip-inputs"}},
+			{Entry: "HarnessC14Outputs", Args: []int64{0, 1000}, Bound: "steps.<id>.outputs.<X> for all bundled specs + github-script + an unknown action, X symbolic of every length up to the longest declared output + 1", Require: []string{"reported", "accepted", "dynamic"}},
+			{Entry: "HarnessC14WorkflowCall", Bound: "local reusable workflow with one input (4 types, symbolic required) and one secret; with:/secrets: keys symbolic; 5 literal/expression values; secrets: inherit", Require: []string{"checked", "typed", "inherit"}},
+		}
+		p.Thorough = p.Quick
+		props["C14"] = p
+	}
 }
